@@ -139,6 +139,11 @@ func runSynth(c *harness.Ctx) harness.Result {
 			// any page-aligned bias: loaders are not obliged to honour a p_align above the page size
 			bias = uint64(0x7f3a00000000) + uint64(r.Intn(1<<20))*pg
 		}
+		if v0 := l.phs[0].Vaddr; v0 >= pg && r.Intn(6) == 0 {
+			// an object linked at a non-zero image base and loaded below it: the bias is negative
+			// (it wraps around as an unsigned number)
+			bias = -(uint64(1+r.Intn(int(v0/pg))) * pg)
+		}
 	}
 	x := l.phs[l.xseg]
 	// loader: the executable segment is mapped page-wise
@@ -603,19 +608,31 @@ func driverSymbolize(c *harness.Ctx, bin string, ef *elf.File, syms []elf.Symbol
 		}
 		p.Mapping = append(p.Mapping, &profile.Mapping{ID: uint64(len(p.Mapping) + 1), Start: bias + (ph.Vaddr &^ (pg - 1)), Limit: bias + ((ph.Vaddr + ph.Filesz + pg - 1) &^ (pg - 1)), Offset: ph.Off &^ (pg - 1), File: bin})
 	}
+	// a position-independent object is also mapped a second time at another bias (the same library
+	// in two processes of a system-wide profile)
+	biases := []uint64{bias}
+	if ef.Type == elf.ET_DYN {
+		b2 := bias + 0x40000000
+		biases = append(biases, b2)
+		for _, m := range append([]*profile.Mapping{}, p.Mapping...) {
+			p.Mapping = append(p.Mapping, &profile.Mapping{ID: uint64(len(p.Mapping) + 1), Start: m.Start - bias + b2, Limit: m.Limit - bias + b2, Offset: m.Offset, File: bin})
+		}
+	}
 	want := map[uint64]string{}
 	for _, s := range syms {
 		if elf.ST_TYPE(s.Info) != elf.STT_FUNC || (s.Name != "alpha" && s.Name != "beta" && s.Name != "main") || s.Size == 0 {
 			continue
 		}
 		for _, d := range []uint64{0, 1, s.Size - 1} {
-			addr := bias + s.Value + d
-			for _, m := range p.Mapping {
-				if addr >= m.Start && addr < m.Limit {
-					l := &profile.Location{ID: uint64(len(p.Location) + 1), Mapping: m, Address: addr}
-					p.Location = append(p.Location, l)
-					p.Sample = append(p.Sample, &profile.Sample{Value: []int64{1}, Location: []*profile.Location{l}})
-					want[l.ID] = s.Name
+			for _, bb := range biases {
+				addr := bb + s.Value + d
+				for _, m := range p.Mapping {
+					if addr >= m.Start && addr < m.Limit {
+						l := &profile.Location{ID: uint64(len(p.Location) + 1), Mapping: m, Address: addr}
+						p.Location = append(p.Location, l)
+						p.Sample = append(p.Sample, &profile.Sample{Value: []int64{1}, Location: []*profile.Location{l}})
+						want[l.ID] = s.Name
+					}
 				}
 			}
 		}
@@ -648,7 +665,7 @@ func driverSymbolize(c *harness.Ctx, bin string, ef *elf.File, syms []elf.Symbol
 			got = l.Line[n-1].Function.Name
 		}
 		if got != w {
-			return fmt.Sprintf("pprof -symbolize=local names the sample at %#x (link-time %#x) %q (%d lines); the symbol table says it lies in %s (ui: %v)", l.Address, l.Address-bias, got, len(l.Line), w, ui.Errs)
+			return fmt.Sprintf("pprof -symbolize=local names the sample at %#x (mapping %#x-%#x) %q (%d lines); the symbol table says it lies in %s (ui: %v)", l.Address, l.Mapping.Start, l.Mapping.Limit, got, len(l.Line), w, ui.Errs)
 		}
 		c.Stat("driver_symbolized_locations", 1)
 	}
@@ -659,7 +676,7 @@ func init() {
 	harness.Register(&harness.Check{
 		ID:          "C13",
 		Level:       "exploration",
-		Rule:        "part synth: ELF64 files (header + program headers) generated under linker constraints (1-4 PT_LOAD sorted by vaddr, off = vaddr mod page, non-zero first vaddr, bss, neighbours packed onto one file page or on separate pages, 4 KiB or 2 MiB alignment, ET_DYN/ET_EXEC), loader simulation at a random page-aligned bias, segments optionally padded to a page boundary, the executable mapping whole, split in two, or with its tail (from any page on) merged with the mapping of the following segment as adjacent same-file mappings are reported; addresses at segment start, end-1, interior; result must be address - bias, an error only counts in the unambiguous class, a wrong address always counts; further addresses through the same object file. part protocol: an interposed llvm-symbolizer echoes the address it is sent: it must be the link-time address; alternately an interposed GNU addr2line (echoing its question) plus an interposed nm table (one long-named symbol per 64 bytes) at high and at low biases: the reported name must be the one either tool gives for the link-time address. part nm: generated sorted symbol tables (duplicates, zero sizes, adjacent, text/data types, junk lines) behind an interposed nm, probed at start-1, start, start+1, end-1, end of every symbol and outside the table. part real: the same C program built with gcc/clang as -pie, -no-pie, noseparate-code, max-page-size=2MiB, -Ttext-segment; loader-simulated from its real headers at three biases; ObjAddr exact and SourceLine (llvm-symbolizer and nm) names the function whose symbol-table range contains the address; and a profile with samples at those runtime addresses run through the real driver (pprof -symbolize=local -proto) must come back with those function names. non-trivial = every case; distinct = layout + bias",
+		Rule:        "part synth: ELF64 files (header + program headers) generated under linker constraints (1-4 PT_LOAD sorted by vaddr, off = vaddr mod page, non-zero first vaddr, bss, neighbours packed onto one file page or on separate pages, 4 KiB or 2 MiB alignment, ET_DYN/ET_EXEC), loader simulation at a random page-aligned bias (also biases that are not multiples of p_align, and negative ones for objects with a non-zero image base), segments optionally padded to a page boundary, the executable mapping whole, split in two, or with its tail (from any page on) merged with the mapping of the following segment as adjacent same-file mappings are reported; addresses at segment start, end-1, interior; result must be address - bias, an error only counts in the unambiguous class, a wrong address always counts; further addresses through the same object file. part protocol: an interposed llvm-symbolizer echoes the address it is sent: it must be the link-time address; alternately an interposed GNU addr2line (echoing its question) plus an interposed nm table (one long-named symbol per 64 bytes) at high and at low biases: the reported name must be the one either tool gives for the link-time address. part nm: generated sorted symbol tables (duplicates, zero sizes, adjacent, text/data types, junk lines) behind an interposed nm, probed at start-1, start, start+1, end-1, end of every symbol and outside the table. part real: the same C program built with gcc/clang as -pie, -no-pie, noseparate-code, max-page-size=2MiB, -Ttext-segment; loader-simulated from its real headers at three biases; ObjAddr exact and SourceLine (llvm-symbolizer and nm) names the function whose symbol-table range contains the address; and a profile with samples at those runtime addresses run through the real driver (pprof -symbolize=local -proto) must come back with those function names, also when the object is mapped twice at different biases in one profile. non-trivial = every case; distinct = layout + bias",
 		Assumptions: []string{"page size 4 KiB", "unambiguous class = the address lies in the file-backed part of exactly one PT_LOAD and no other segment has file content on the same page, mapping not split, and (merged mappings) the mapping holds at least one full page of the executable segment; pprof attributes a merged mapping holding less than a page of a segment to the next segment by design and answers with an error", "layouts are those the generator and the installed compilers produce"},
 		Parts: []harness.Part{
 			{Name: "synth", Quick: 6000, Thor: 300000, Run: runSynth},
